@@ -128,6 +128,7 @@ func vAnd(a, b bool) bool     { return a && b }
 func vOr(a, b bool) bool      { return a || b }
 func vImplies(a, b bool) bool { return !a || b }
 func vNativeSkip(why string)  {}
+func vRandByte(i int) uint8   { return uint8(i) }
 func vSameJSON(a, b interface{}) bool {
 	x, err1 := json.Marshal(a)
 	y, err2 := json.Marshal(b)
